@@ -73,3 +73,12 @@ CORPUS += [
     Mut('c14-draws-copied-into-what-the-getter-returns', 'torchtree/distributions/distributions.py', '', "        ).rsample(sample_shape)\n        self.x.tensor = x\n",
         "        ).rsample(sample_shape)\n        self.x.tensor.copy_(x)\n        self.x.fire_parameter_changed()\n", mode='text', expect=[('C14.S', 'draw-reaches-the-model::')]),
 ]
+_IG_ANCHOR = "    @property\n    def concentration(self):\n        return self.base_dist.concentration\n"
+CORPUS += [
+    Mut('c14-inverse-gamma-entropy-with-the-sign-of-a-rate', 'torchtree/distributions/inverse_gamma.py', '', _IG_ANCHOR,
+        "    def entropy(self):\n        return self.concentration - self.rate.log() + self.concentration.lgamma() - (1.0 + self.concentration) * self.concentration.digamma()\n\n" + _IG_ANCHOR,
+        mode='text', expect=[('C14.C', 'InverseGamma::entropy')]),
+    Mut('c14-benign-inverse-gamma-entropy', 'torchtree/distributions/inverse_gamma.py', '', _IG_ANCHOR,
+        "    def entropy(self):\n        return self.concentration + torch.log(self.rate) + torch.lgamma(self.concentration) - (1.0 + self.concentration) * torch.digamma(self.concentration)\n\n" + _IG_ANCHOR,
+        mode='text', benign=True),
+]
